@@ -95,6 +95,10 @@ def cq_layer(ids, l):
 
 def cq_store(ids, st):
     mans = []
+    for e in st["manifests"] + st["blobs"]:
+        if e.get("linked") or e.get("symlink") is not None or e.get("nlink"):
+            raise ValueError("%s shares an inode with / is a link to another file (%s): the model has no aliased files"
+                             % (e.get("path") or e.get("name"), e.get("linked") or e.get("symlink") or "nlink=%s" % e.get("nlink")))
     for m in st["manifests"]:
         parts = m["path"].split("/")
         if len(parts) != 4:
@@ -566,6 +570,13 @@ def monitor_step(op, before, o):
             own = op["op"] == "create" and fold(tuple(m["path"].split("/"))) in op_target(op)
             out.append(({"class": "listed-incomplete", "cause": kind, "spelling": spelled, "own_create": own},
                         "model %s: layer %s is %s after %s" % (m["path"], d, kind, op["op"])))
+    # no two files of the store are one file: an operation on one model would alter the other
+    for e in st["manifests"] + st["blobs"]:
+        if e.get("linked") or e.get("symlink") is not None:
+            out.append(({"class": "aliased-files", "op": op["op"], "kind": "symlink" if e.get("symlink") is not None else "hardlink"},
+                        "after %s, %s %s: changing one changes the other" % (
+                            op["op"], e.get("path") or e.get("name"),
+                            ("is a symbolic link to %s" % e["symlink"]) if e.get("symlink") is not None else ("shares its inode with %s" % e["linked"]))))
     # no two listed names differ only by case
     seen = {}
     for m in readable:
